@@ -100,6 +100,7 @@ func (c18) closeAt(sc core.Scenario, r *core.R) {
 	closed := make(chan struct{})
 	var fireOnce sync.Once
 	var closeSeq int64
+	var immediate *Outcome
 	var outstandingAtFire int
 	var mu sync.Mutex
 	var outs []*Outcome
@@ -128,6 +129,9 @@ func (c18) closeAt(sc core.Scenario, r *core.R) {
 			go func() {
 				cl.Close()
 				closeSeq = core.Log.Note("h.closer.returned", "")
+				// a call issued the instant the closer has returned must fail, not be served
+				t := Tok("i")
+				immediate = Go(t, func() (string, error) { return cl.Echo(context.Background(), t, "") })
 				close(closed)
 			}()
 		})
@@ -246,6 +250,13 @@ func (c18) closeAt(sc core.Scenario, r *core.R) {
 			r.Violate("foreign-result", "%s: call %s returned %q", where, o.Tok, o.Val)
 		}
 	}
+	if immediate != nil {
+		if !immediate.Wait(core.Grace) {
+			r.Violate("late-call-blocked", "%s: a call issued the instant the closer returned blocks", where)
+		} else if immediate.Err == nil {
+			r.Violate("late-call-served", "%s: a call issued the instant the closer returned was served (%q): the client was not closed yet when the closer returned", where, immediate.Val)
+		}
+	}
 	for i := 0; i < 20; i++ {
 		t := Tok("l")
 		o := Go(t, func() (string, error) { return cl.Echo(bg, t, "") })
@@ -306,11 +317,17 @@ func (c18) stateless(sc core.Scenario, r *core.R) {
 		outs = append(outs, Go(t, func() (string, error) { return cl.Echo(bg, t, "") }))
 		env.Svc.WaitEntered(t, core.Grace)
 	}
+	// a call through a method without a context parameter is in progress as well
+	tn := Tok("h")
+	env.Svc.Hold(tn)
+	outs = append(outs, Go(tn, func() (string, error) { return cl.NoCtx(tn) }))
+	env.Svc.WaitEntered(tn, core.Grace)
 	done := make(chan struct{})
 	go func() { closer(); close(done) }()
 	if !core.WaitCh(done, core.Grace) {
 		r.Violate("closer-hang", "%s closer did not return while calls were in progress", tr)
 	}
+	time.Sleep(5 * time.Millisecond)
 	env.Svc.ReleaseAll()
 	for _, o := range outs {
 		if !o.Wait(core.Grace) {
@@ -321,5 +338,5 @@ func (c18) stateless(sc core.Scenario, r *core.R) {
 	}
 	r.Key(fmt.Sprintf("stateless %s %d", tr, sc.I("i")), true)
 	r.Obs("stateless_closes", 1)
-	r.Sample(map[string]interface{}{"transport": tr, "calls_in_progress": 4})
+	r.Sample(map[string]interface{}{"transport": tr, "calls_in_progress": 5, "incl_method_without_context": true})
 }
